@@ -14,6 +14,7 @@ import struct
 
 from core import coqrun
 from fakes import c12_target as ft
+from fakes import c12_session as fs
 
 ID = 'C12'
 PROPERTY_FILE = 'C12/Property.v'
@@ -56,11 +57,25 @@ NOT_PROVED = ('Loss of buffer-load packets, a target whose real geometry differs
               'the flush of the next) are outside the model; bytes of the last flash page beyond the image end take '
               'whatever the buffer held (inside the occupied range, allowed by the statement).')
 
-HEADER = ('From CF Require Import Common.Bytes C12.Model.\nOpen Scope Z_scope.\n'
+HEADER = ('From CF Require Import Common.Bytes C12.Model C12.Session.\nOpen Scope Z_scope.\n'
           'Fixpoint zr (a : Z) (n : nat) : list Z := match n with O => [] | S k => a :: zr (a + 1) k end.\n'
           'Definition mem (n salt : Z) : list Z := map (fun a => ((a * 7 + salt) * 13 + a / 8) mod 251) (zr 0 (Z.to_nat n)).\n'
           'Definition dg1 (p b : Z) (l : list Z) : Z := fold_left (fun h v => (h * b + v + 1) mod p) l 7.\n'
           'Definition dg (l : list Z) : Z * Z := (dg1 2147483647 31 l, dg1 2147483629 37 l).\n'
+          'Definition uobs (pv_prev : Z) (r : ui_res * list frame * list (option pkt)) : list Z :=\n'
+          '  let (rf, rest) := r in let (res, fs) := rf in\n'
+          '  (match res with UFalse => [0] | URaise => [1] | UMalformed => [3] | UTrue i m =>\n'
+          '     [2; i_ps i; i_bp i; i_fp i; i_sp i] ++ i_cpuid i ++\n'
+          '     [match i_pv i with Some v => v | None => 255 end; match i_pv i with Some v => v | None => pv_prev end] ++\n'
+          '     match i_ver i with Some (a, b, c, p) => [1; a; b; c; if p then 1 else 0] | None => [0] end end) ++\n'
+          '  [Z.of_nat (length rest)] ++ concat (map (fun f : frame => zlen f :: f) fs).\n'
+          'Definition oc4 (r : outcome * list pkt * list att * list (frame * bool)) := fst (fst (fst r)).\n'
+          'Definition sc4 (r : outcome * list pkt * list att * list (frame * bool)) := snd (fst r).\n'
+          'Definition tr4 (r : outcome * list pkt * list att * list (frame * bool)) := snd r.\n'
+          'Definition geo (tid : Z) (p : pkt) : Z * Z * Z * Z :=\n'
+          '  match parse_info tid p with POk i => (i_ps i, i_bp i, i_fp i, i_sp i) | _ => (0, 0, 0, 0) end.\n'
+          'Definition fl (tid : Z) (g : Z * Z * Z * Z) (img : list Z) (s : list att) :=\n'
+          '  let \'(ps, bp, fp, sp) := g in internal_flash tid ps bp fp sp None img [] s.\n'
           'Definition fimg (n s1 s2 s3 : Z) : list Z := map (fun a => (((a * s1 + s2) * (a + s3)) / 7) mod 256) (zr 0 (Z.to_nat n)).\n')
 
 STM, NRF = 0xFF, 0xFE
@@ -450,6 +465,333 @@ def int_div_boundary_check():
                 if int(v / ps) != v // ps:
                     bad.append((v, ps))
     return n, bad
+
+
+# ------------------------------------------------------------------------------------------------ _update_info (info packet -> geometry)
+class _patched:
+    """Virtual clock inside cflib.bootloader.cloader, optional replacement of cflib.crtp.get_link_driver."""
+
+    def __init__(self, clock, link_factory=None):
+        self.clock, self.link_factory = clock, link_factory
+
+    def __enter__(self):
+        import cflib.bootloader.cloader as cl
+        import cflib.crtp
+        self.cl, self.crtp = cl, cflib.crtp
+        self.old_time, self.old_gld = cl.time, cflib.crtp.get_link_driver
+        cl.time = self.clock
+        if self.link_factory is not None:
+            cflib.crtp.get_link_driver = self.link_factory
+        return self
+
+    def __exit__(self, *a):
+        self.cl.time = self.old_time
+        self.crtp.get_link_driver = self.old_gld
+
+
+def run_update_info(case):
+    """case: {'tid', 'pv_prev', 'events': [None | [hdr, data]]}.  Returns the observation list (see uobs)."""
+    import re
+    from cflib.bootloader.cloader import Cloader
+    from cflib.crtp.crtpstack import CRTPPacket
+    clock = fs.VClock()
+    link = fs.EventLink(case['events'], clock, CRTPPacket)
+    cl = Cloader(None)
+    cl.link = link
+    cl.protocol_version = case['pv_prev']
+    tid = case['tid']
+    with _patched(clock):
+        try:
+            r = cl._update_info(tid)
+            head = [2] if r else [0]
+        except ft.HarnessAbort:
+            head = [98]
+        except struct.error:
+            head = [1]
+        except Exception as e:
+            head = [3] if e.args == ('Malformed flash mapping packet',) else [99]
+    if head == [2]:
+        t = cl.targets[tid]
+        cpu = [int(x, 16) for x in t.cpuid.split(':')]
+        head += [t.page_size, t.buffer_pages, t.flash_pages, t.start_page] + cpu + [t.protocol_version, cl.protocol_version]
+        if t.version is None:
+            head += [0]
+        else:
+            m = re.match(r'^(\d+)\.(\d+)\.(\d+)(\+?)$', t.version)
+            head += [1, int(m.group(1)), int(m.group(2)), int(m.group(3)), 1 if m.group(4) else 0]
+        if t.addr != tid or t.id != tid:
+            head += [-1]
+    out = head + [len(link.events)]
+    for f in link.sent:
+        out += [len(f)] + f
+    return out
+
+
+def _ev(e):
+    return 'None' if e is None else '(Some %s)' % _pkt(e)
+
+
+def info_term(case):
+    return 'uobs %d (update_info %d %d [%s])' % (case['pv_prev'], case['tid'], case['pv_prev'],
+                                                  '; '.join(_ev(e) for e in case['events']))
+
+
+def gen_info_case(rng):
+    tid = rng.choice([STM, NRF])
+    pv_prev = rng.choice([0xFF, 0xFF, 0x10, 0x01])
+
+    def good(n_rest=None):
+        rest_len = rng.choice([0, 0, 1, 2, 4, 5, 5, 7]) if n_rest is None else n_rest
+        rest = [rng.choice([0x10, 0x10, 0x01, 0x00, rng.randrange(256)])] + [rng.randrange(256) for _ in range(rest_len)]
+        rest = rest[:rest_len]
+        g = [rng.choice([0, 1, 255, 256, 1024, 4096, 65535, rng.randrange(65536)]) for _ in range(4)]
+        return fs.info_packet(tid, g[0], g[1], g[2], g[3], cpuid=[rng.randrange(256) for _ in range(12)], rest=rest)
+
+    def other():
+        k = rng.randrange(9)
+        p = good()
+        if k == 0:
+            return [0xFF, p[1][:rng.choice([0, 1])]]                 # too short for '<BB'
+        if k == 1:
+            return [0xFF, p[1][:rng.choice([2, 5, 9, 10, 21])]]      # matches, too short for the formats
+        if k == 2:
+            return [0xFF, [tid ^ 1] + p[1][1:]]                      # other target
+        if k == 3:
+            return [0xFF, [tid, rng.choice([0x11, 0x18, 0x14])] + p[1][2:]]
+        if k == 4:
+            return [rng.choice([0x00, 0xEF, 0xF2]), p[1]]            # another port/channel
+        if k == 5:
+            return [0xF3, p[1]]                                      # 0xF3 | 0x0C = 0xFF: accepted
+        if k == 6:
+            return [0xFF, [tid, 0x12] + [rng.randrange(256) for _ in range(rng.randrange(0, 6))]]
+        if k == 7:
+            return ack(tid)
+        return None
+    evs = []
+    for _ in range(rng.choice([0, 1, 1, 2, 3, 5, 8])):
+        evs.append(rng.choice([None, None, other(), other()]))
+    if rng.random() < 0.8:
+        evs.append(good())
+        # what _update_mapping may receive
+        evs.append(rng.choice([None, [0xFF, [tid, 0x12, 1, 2, 3, 4]], [0xFF, [tid, 0x12, 1, 2, 3]], [0xFF, [tid, 0x12]],
+                               [0xFF, [tid]], good()]))
+    if rng.random() < 0.15:
+        evs = [None] * rng.choice([4, 5, 6]) + evs
+    if rng.random() < 0.1:
+        evs = [other() for _ in range(rng.choice([60, 99, 100, 101, 120]))] + evs
+    return {'tid': tid, 'pv_prev': pv_prev, 'events': evs}
+
+
+# ------------------------------------------------------------------------------------------------ Bootloader.flash sessions (zip -> artifacts -> where)
+def make_zip(path, files):
+    """files: list of (name, bytes, metadata dict)"""
+    import json
+    import zipfile
+    with zipfile.ZipFile(path, 'w') as z:
+        z.writestr('manifest.json', json.dumps({'version': 2, 'subversion': 1, 'release': '2099.1',
+                                                'files': {n: m for (n, c, m) in files}}))
+        for (n, c, m) in files:
+            z.writestr(n, bytes(c))
+
+
+def run_session(case):
+    """A whole Bootloader.flash(zip, []) against SessionLink.  Returns (code, detail, link, targets, bootloader)."""
+    import os
+    from cflib.bootloader import Bootloader
+    from cflib.crtp.crtpstack import CRTPPacket
+    clock = fs.VClock()
+    tg = build_targets(case)
+    link = fs.SessionLink(tg, case.get('script', []), CRTPPacket, {int(k): v for k, v in case['reports'].items()}, clock)
+    path = os.path.join(coqrun.BUILD, 'c12_session_%d.zip' % os.getpid())
+    os.makedirs(coqrun.BUILD, exist_ok=True)
+    files = []
+    if case.get('sd') is not None:
+        files.append(('sd.bin', case['sd'], {'platform': 'cf2', 'target': 'nrf51', 'type': 'bootloader+softdevice',
+                                             'release': '2099.1', 'repository': 'x', 'provides': ['sd-s130']}))
+    if case.get('nrf_fw') is not None:
+        files.append(('nrf.bin', case['nrf_fw'], {'platform': 'cf2', 'target': 'nrf51', 'type': 'fw', 'release': '2099.1',
+                                                  'repository': 'x', 'requires': ['sd-s130'] if case.get('sd') is not None
+                                                  else [case.get('nrf_requires', 'sd-s110')]}))
+    if case.get('stm_fw') is not None:
+        files.append(('stm.bin', case['stm_fw'], {'platform': 'cf2', 'target': 'stm32', 'type': 'fw', 'release': '2099.1',
+                                                  'repository': 'x'}))
+    make_zip(path, files)
+    detail = ''
+    bl = None
+    try:
+        with _patched(clock, lambda uri: link), contextlib.redirect_stdout(io.StringIO()):
+            bl = Bootloader('radio://0/0/2M/E7E7E7E7E7')
+            bl._cload.link = link
+            try:
+                # what start_bootloader does once a link exists
+                ok = bl._cload.check_link_and_get_info()
+                bl.protocol_version = bl._cload.protocol_version
+                if ok and bl.protocol_version == 0x10:
+                    bl._cload.request_info_update(NRF)
+                bl.flash(path, [])
+                code = 0
+            except ft.HarnessAbort as e:
+                code, detail = 98, repr(e)
+            except struct.error as e:
+                code, detail = 3, repr(e)
+            except IndexError as e:
+                code, detail = 4, repr(e)
+            except ZeroDivisionError as e:
+                code, detail = 5, repr(e)
+            except Exception as e:
+                if type(e) is Exception and e.args == ('Not enough space to flash the image file',):
+                    code = 1
+                elif type(e) is Exception and e.args == ():
+                    code = 2
+                else:
+                    code, detail = 99, repr(e)
+    finally:
+        try:
+            os.remove(path)
+        except OSError:
+            pass
+    return code, detail, link, tg, bl
+
+
+def session_obs(case):
+    code, detail, link, tg, bl = run_session(case)
+    out = [code]
+    for (h, d, deliv) in link.sent:
+        if h == 0xFF and len(d) >= 2 and d[1] in (0x14, 0x18):
+            out += [1 if deliv else 0, 1 + len(d), h] + list(d)
+    for t in tg:
+        out += list(t.buf) + list(t.flash) + [1 if t.oob else 0]
+    return out, code, detail, link, tg, bl
+
+
+def _img(c, key):
+    f = c.get(key + '_formula')
+    if f:
+        assert fimg(*f) == list(c[key])
+        return '(fimg %d %d %d %d)' % tuple(f)
+    return coqrun.zlist(c[key])
+
+
+def session_term(case):
+    """The model of the session: sd+bl step on the geometry parsed from the first nRF51 report, then the firmware
+    images on the geometry parsed from the reports given after the reset."""
+    rep = {int(k): v for k, v in case['reports'].items()}
+
+    def ipk(tid, r):
+        p = fs.info_packet(tid, r[0], r[1], r[2], r[3], rest=r[4])
+        return _pkt(p)
+    has_sd = case.get('sd') is not None
+    phase2 = 1 if has_sd else 0
+    g_nrf1 = 'geo 254 %s' % ipk(NRF, rep[NRF][0])
+    g_nrf2 = 'geo 254 %s' % ipk(NRF, rep[NRF][min(phase2, len(rep[NRF]) - 1)])
+    g_stm2 = 'geo 255 %s' % ipk(STM, rep[STM][min(phase2, len(rep[STM]) - 1)])
+    scr = '[%s]' % '; '.join(_att(a) for a in case.get('script', []))
+    steps = []
+    if has_sd:
+        steps.append('(fun s => let \'(ps, bp, fp, sp) := %s in flash_sdbl ps bp fp sp %s [] s)' % (g_nrf1, _img(case, 'sd')))
+    if case.get('nrf_fw') is not None:
+        steps.append('(fun s => fl 254 (%s) %s s)' % (g_nrf2, _img(case, 'nrf_fw')))
+    if case.get('stm_fw') is not None:
+        steps.append('(fun s => fl 255 (%s) %s s)' % (g_stm2, _img(case, 'stm_fw')))
+    tgs = []
+    for k, t in enumerate(case['targets']):
+        tgs.append('(mkT %d %d %d %d (mem %d %d) (mem %d %d) false)' % (
+            t['id'], t['ps'], t['bp'], t['fp'], t['ps'] * t['bp'], 3 + k, t['ps'] * t['fp'], 101 + k))
+    return ('let run := fold_left (fun (acc : outcome * list att * list (frame * bool)) '
+            '(step : list att -> outcome * list pkt * list att * list (frame * bool)) => '
+            'let \'(o, s, tr) := acc in match o with Done => let r := step s in (oc4 r, sc4 r, tr ++ tr4 r) | _ => acc end) '
+            '[%s] (Done, %s, []) in '
+            'let \'(o, s, tr) := run in '
+            '[outcome_code o] ++ trace_obs tr ++ '
+            'concat (map (fun T => let T1 := deliver T tr in t_buf T1 ++ t_flash T1 ++ [if t_oob T1 then 1 else 0]) [%s])'
+            % ('; '.join(steps), scr, '; '.join(tgs)))
+
+
+def gen_session_case(rng):
+    ps = rng.choice([4, 8, 16, 25, 32])
+    nbp, sbp = rng.choice([1, 1, 2]), rng.choice([2, 3, 10])
+    sfp = rng.randrange(6, 16)
+    sps = rng.choice([8, 16, 26, 64])
+    has_sd = rng.random() < 0.7
+    # _get_current_nrf51_sd_version reads the soft device off the start page: 88 = s110, 108 = s130
+    nsp1 = 88 if has_sd or rng.random() < 0.5 else 108
+    nfp_total = 108 + rng.randrange(4, 24)
+    ssp = rng.choice([0, 1, 4])
+    k = rng.randrange(1, nfp_total - 108 + 1)                # pages of the sd+bl image
+    r = rng.random()
+    if r < 0.6:
+        sdlen = k * ps
+    elif r < 0.8:
+        sdlen = k * ps + rng.randrange(1, ps)
+    elif r < 0.9:
+        sdlen = (nfp_total + rng.randrange(0, 2)) * ps     # as large as / larger than the flash
+    else:
+        sdlen = rng.randrange(1, ps + 1)
+    nsp2 = 108 if has_sd else nsp1
+    nfp2 = max(nsp2, rng.choice([nfp_total, nfp_total - k]))   # what the new bootloader reports
+    pvrest = [0x10] + ([rng.randrange(256), rng.randrange(128), rng.randrange(256), rng.randrange(256)]
+                       if rng.random() < 0.5 else [])
+    reports = {str(NRF): [[ps, nbp, nfp_total, nsp1, pvrest], [ps, nbp, nfp2, nsp2, pvrest]],
+               str(STM): [[sps, sbp, sfp, ssp, pvrest]]}
+    targets = [{'id': STM, 'ps': sps, 'bp': sbp, 'fp': sfp, 'sp': ssp},
+               {'id': NRF, 'ps': ps, 'bp': nbp, 'fp': nfp_total, 'sp': nsp1}]
+    c = {'targets': targets, 'reports': reports, 'script': rand_script(rng, rng.choice([STM, NRF]), 3) if rng.random() < 0.4 else []}
+
+    def im(key, n):
+        c[key + '_formula'] = [n, rng.randrange(1, 1000), rng.randrange(1000), rng.randrange(1000)]
+        c[key] = fimg(*c[key + '_formula'])
+    if has_sd:
+        im('sd', sdlen)
+    if rng.random() < 0.7:
+        avail = max(1, nfp2 - nsp2) * ps
+        im('nrf_fw', rng.choice([1, ps, avail, avail + 1, rng.randrange(1, avail + 2)]))
+        if not has_sd:
+            c['nrf_requires'] = 'sd-s110' if nsp1 == 88 else 'sd-s130'
+    if rng.random() < 0.8 or (not has_sd and 'nrf_fw' not in c):
+        avail = (sfp - ssp) * sps
+        im('stm_fw', rng.choice([1, sps, sbp * sps, avail, avail + 1, rng.randrange(1, avail + 2)]))
+    return c
+
+
+def tie_extra(ctx):
+    """update_info cases and whole-session cases; returns (n, disagreements, distribution, samples)."""
+    dis = []
+    rng = ctx.rng
+    icases = [gen_info_case(rng) for _ in range(ctx.scale(250, 3000))]
+    terms = [info_term(c) for c in icases]
+    exp = [run_update_info(c) for c in icases]
+    dist = {'update_info_outcome': {}, 'session_outcome': {}, 'session_with_sd': 0}
+    for e in exp:
+        k = {0: 'False', 1: 'struct.error', 2: 'True', 3: 'MalformedMapping'}.get(e[0], str(e[0]))
+        dist['update_info_outcome'][k] = dist['update_info_outcome'].get(k, 0) + 1
+    for bi, mv in compare(terms, exp, 'c12i', max(10, len(terms) // 8 + 1)):
+        dis.append({'what': '_update_info: model and implementation differ', 'case': icases[bi],
+                    'model': mv if mv is None else mv[:40], 'impl': exp[bi][:40]})
+    scases = [gen_session_case(rng) for _ in range(ctx.scale(120, 1500))]
+    terms, exp2, keep = [], [], []
+    for c in scases:
+        obs, code, detail, link, tg, bl = session_obs(c)
+        if code >= 98:
+            dis.append({'what': 'Bootloader.flash raised an unexpected exception', 'case': c, 'impl': detail})
+            continue
+        terms.append(session_term(c))
+        exp2.append(obs)
+        keep.append(c)
+        k = CODES[code]
+        dist['session_outcome'][k] = dist['session_outcome'].get(k, 0) + 1
+        dist['session_with_sd'] += c.get('sd') is not None
+    for bi, mv in compare(terms, exp2, 'c12s', max(10, len(terms) // 8 + 1)):
+        c = keep[bi]
+        d = {'what': 'Bootloader.flash session: model and implementation differ',
+             'case': {k: (v if not isinstance(v, list) or len(v) < 40 else len(v)) for k, v in c.items()},
+             'impl_outcome': exp2[bi][0]}
+        if mv is not None:
+            k = next((i for i, (a, b) in enumerate(zip(mv, exp2[bi])) if a != b), min(len(mv), len(exp2[bi])))
+            d.update({'first_difference_at': k, 'model': mv[max(0, k - 4):k + 12], 'impl': exp2[bi][max(0, k - 4):k + 12]})
+        dis.append(d)
+    samples = [{'update_info': {'tid': icases[0]['tid'], 'events': icases[0]['events'][:2], 'impl': exp[0][:8]}}]
+    return len(icases) + len(keep), dis, dist, samples
+
 
 
 # ------------------------------------------------------------------------------------------------ tie
